@@ -484,8 +484,22 @@ func (in *interp) setLine(text string, assigned bool) {
 }
 
 func (in *interp) rebuild() {
+	// the size of the joined record, checked before it is built
+	total := 0
+	for _, f := range in.fields {
+		total += len(f) + len(in.ofs)
+	}
+	in.checkSize(total)
 	in.line = strings.Join(in.fields, in.ofs)
 	in.lineIsAssigned = true
+}
+
+// checkSize: runaway string growth (also through sub/gsub on a variable, or a record rebuilt with a
+// grown OFS, which never pass through eval) is treated like an exhausted step budget.
+func (in *interp) checkSize(n int) {
+	if n > 1<<16 {
+		panic(ctlBudget{})
+	}
 }
 
 const maxField = 1000000
@@ -776,6 +790,7 @@ func (in *interp) load(l lref) Value {
 }
 
 func (in *interp) store(l lref, v Value) {
+	in.checkSize(len(v.s))
 	switch l.kind {
 	case "var":
 		in.setVar(l.name, v)
@@ -1137,7 +1152,8 @@ func (in *interp) splitBy(s, sep string) []string {
 	}
 	switch {
 	case sep == " ":
-		return strings.Fields(s)
+		f, _ := recmodel.SplitFields(s, " ") // blanks are space, tab and newline only
+		return f
 	case utf8.RuneCountInString(sep) <= 1:
 		return strings.Split(s, sep)
 	}
